@@ -196,6 +196,13 @@ def fresh_dbs():
     SSH1_KexDB.DB_PER_THREAD.clear()
 
 
+def _Software():
+    """the class (private helpers of it that the unit-level streams call may be renamed or inlined by a refactoring: those streams are
+    then dropped — the public behaviour is still compared through compare_version / parse / display)"""
+    from ssh_audit.software import Software
+    return Software
+
+
 def impl(op, a):
     from ssh_audit.software import Software
     from ssh_audit.algorithm import Algorithm
@@ -426,7 +433,8 @@ def build_corr_cases(ctx, pairs):
             a = mutate_text(r, render(r, gen_comps(r), 0.1))
         if r.random() < 0.5:
             b = mutate_text(r, render(r, gen_comps(r), 0.1))
-        cases.append(('ver.cmpnum', [a, b], ['cmpnum-malformed']))
+        if hasattr(_Software(), '_compare_version_numbers'):
+            cases.append(('ver.cmpnum', [a, b], ['cmpnum-malformed']))
         cases.append(('ver.split', [b + r.choice(SW_PATCH + ['  p1  ', ' \x1c', '\x1fp2\x0b'])], ['split']))
         p = r.choice(prods)
         sp = r.choice([None, '', gen_junk(r, 1), r.choice(SW_PATCH), r.choice(PATCHES[OPENSSH] + PATCHES[DROPBEAR])])
@@ -447,14 +455,16 @@ def build_corr_cases(ctx, pairs):
         if r.random() < 0.3:
             c = mutate_text(r, c)
         cases.append(('ver.parse', [sw, c], ['parse']))
-        cases.append(('ver.os', [c], ['os']))
+        if hasattr(_Software(), '_extract_os_version'):
+            cases.append(('ver.os', [c], ['os']))
     for sw in [None, '', 'OpenSSH_9.9', 'OpenSSH_10.0', 'OpenSSH_9p1', 'OpenSSH_9', 'OpenSSH_10', 'OpenSSH_10p1', 'dropbear_2022.83', 'dropbear_0.44test3', 'libssh-0.10.6',
                'libssh_0.11.1', 'OpenSSH_7.4p1-hpn14v1', 'OpenSSH_for_Windows_8.1', 'tinyssh_noversion', 'PuTTY_Release_0.80', 'lancom1.2', 'Cisco-1.25', 'mpSSH_0.2.1',
                'RomSShell_5.40', 'OpenSSH_..5', 'OpenSSH_.7.4', 'OpenSSH-_-7.4..p1', 'dropbear_.5', 'dropbear_7', 'dropbear_77', 'tinyssh_a\nb', 'PuTTY_Release_\n']:
         for c in [None, 'FreeBSD-20170902', 'NetBSD_Secure_Shell-20080403']:
             cases.append(('ver.parse', [sw, c], ['parse-boundary']))
     for c in COMMENTS:
-        cases.append(('ver.os', [c], ['os-boundary']))
+        if hasattr(_Software(), '_extract_os_version'):
+            cases.append(('ver.os', [c], ['os-boundary']))
     for _ in range(ctx.scale(1500, 20000)):
         p = r.choice(prods + ['RomSShell'])
         cases.append(('ver.display', [r.choice([None, '', 'HP', 'Allegro Software']), p, r.choice(['', '7.4', render(r, gen_comps(r))]),
